@@ -527,22 +527,53 @@ termination_by structural l => l
 end
 
 mutual
-/-- no statically named include and no macro call inside an element that a match template may
-rewrite (tag in `T`) nor inside a match template body (`zone`): there the run-time include
-restarts the match filter while inlined content inherits the restricted one (finding C11-match-range) -/
-def zoneFreeN (T : List Name) (zone : Bool) : Node → Bool
+/-- a stream whose rendering does not depend on the window of match templates in force: no
+element a match template is written for, no macro call, no `select`, statically named includes
+of text templates only (expression-valued ones restart the window in both modes anyway) -/
+def winfreeN (T : List Name) : Node → Bool
+  | .text _ | .var _ | .defn _ _ | .matchT _ _ => true
+  | .call _ | .select => false
+  | .elem t b => !decide (t ∈ T) && winfreeL T b
+  | .cond _ b | .loop _ _ b | .inlined b => winfreeL T b
+  | .include (.static _) cls _ fb _ => decide (cls = .text) && winfreeL T fb
+  | .include (.dyn _) _ _ fb _ => winfreeL T fb
+termination_by structural n => n
+def winfreeL (T : List Name) : List Node → Bool
+  | [] => true
+  | n :: ns => winfreeN T n && winfreeL T ns
+termination_by structural l => l
+end
+
+/-- a statically named include inside a zone is harmless when what gets inlined for it — the
+target, or the fallback of a missing target — does not depend on the window -/
+def zoneTargetOk (files : Files) (T : List Name) (pos h : List Char) (hasFb : Bool) (fb : List Node) : Bool :=
+  match resolve pos h with
+  | none => false
+  | some name =>
+    match files.find name with
+    | none => !hasFb || winfreeL T fb
+    | some f => match f.body with
+      | none => false
+      | some b => winfreeL T b
+
+mutual
+/-- inside an element that a match template may rewrite (tag in `T`) and inside a match template
+body (`zone`) the run-time include restarts the match filter while inlined content inherits the
+restricted window (findings C11-match-range, -select): no macro call there, and a statically named
+include only of content that does not depend on the window (`zoneTargetOk`) -/
+def zoneFreeN (files : Files) (T : List Name) (zone : Bool) : Node → Bool
   | .text _ | .var _ | .select => true
   | .call _ => !zone
-  | .elem t b => zoneFreeL T (zone || decide (t ∈ T)) b
-  | .cond _ b | .loop _ _ b | .inlined b => zoneFreeL T zone b
-  | .defn _ b => zoneFreeL T false b
-  | .matchT _ b => zoneFreeL T true b
-  | .include (.static _) _ _ fb _ => !zone && zoneFreeL T false fb
-  | .include (.dyn _) _ _ fb _ => zoneFreeL T false fb
+  | .elem t b => zoneFreeL files T (zone || decide (t ∈ T)) b
+  | .cond _ b | .loop _ _ b | .inlined b => zoneFreeL files T zone b
+  | .defn _ b => zoneFreeL files T false b
+  | .matchT _ b => zoneFreeL files T true b
+  | .include (.static h) _ hasFb fb pos => (!zone || zoneTargetOk files T pos h hasFb fb) && zoneFreeL files T false fb
+  | .include (.dyn _) _ _ fb _ => zoneFreeL files T false fb
 termination_by structural n => n
-def zoneFreeL (T : List Name) (zone : Bool) : List Node → Bool
+def zoneFreeL (files : Files) (T : List Name) (zone : Bool) : List Node → Bool
   | [] => true
-  | n :: ns => zoneFreeN T zone n && zoneFreeL T zone ns
+  | n :: ns => zoneFreeN files T zone n && zoneFreeL files T zone ns
 termination_by structural l => l
 end
 
@@ -585,7 +616,7 @@ end
 def fileOk (T : List Name) (files : Files) (f : File) : Bool :=
   match f.body with
   | none => false            -- ill-formed templates are outside the property's quantifier
-  | some b => tagsOkL T b && zoneFreeL T false b && clsOkL files b &&
+  | some b => tagsOkL T b && zoneFreeL files T false b && clsOkL files b &&
       (match f.kind with | .text => textualL b | .markup => true)
 
 def inH (T : List Name) (files : Files) : Bool :=
